@@ -13,7 +13,7 @@ AUG = {ast.BitOr: 'ior', ast.BitAnd: 'iand', ast.Sub: 'isub', ast.BitXor: 'ixor'
 
 
 class Eff:
-    __slots__ = ('root', 'field', 'op', 'args', 'node', 'conds', 'loops', 'gens', 'stmt', 'negated', 'order')
+    __slots__ = ('root', 'field', 'op', 'args', 'node', 'conds', 'guards', 'loops', 'gens', 'stmt', 'negated', 'order')
 
     def __init__(self, root, field, op, args, node, conds, loops, gens, stmt, negated=None, order=0):
         self.root = root
@@ -21,12 +21,19 @@ class Eff:
         self.op = op
         self.args = args
         self.node = node
-        self.conds = list(conds)    # [(test, polarity)]
+        # [(test, polarity)]: nesting conditions; guard clauses (``if c: return/raise``) that precede the effect are kept
+        # apart in .guards - the effect is unconditional on every path that gets past them
+        self.conds = [c for c in conds if len(c) == 2]
+        self.guards = [(c[0], c[1]) for c in conds if len(c) == 3]
         self.loops = list(loops)    # [(target, iter)]
         self.gens = list(gens)      # comprehension generators enclosing the call (ast.comprehension)
         self.stmt = stmt
         self.negated = negated      # for calls used in boolean position inside a filter: wrapped in ``not``?
         self.order = order
+
+    @property
+    def allconds(self):
+        return self.conds + self.guards
 
     @property
     def unconditional(self):
@@ -59,6 +66,7 @@ class Effects:
         return None
 
     def _body(self, body, conds, loops):
+        conds = list(conds)
         for s in body:
             if isinstance(s, (ast.FunctionDef, ast.AsyncFunctionDef, ast.ClassDef)):
                 continue
@@ -66,6 +74,12 @@ class Effects:
                 self._exprs(s.test, s, conds, loops)
                 self._body(s.body, conds + [(s.test, True)], loops)
                 self._body(s.orelse, conds + [(s.test, False)], loops)
+                # guard clause: ``if c: return/raise/continue/break`` makes the rest of the block conditional on not c
+                if s.body and isinstance(s.body[-1], (ast.Return, ast.Raise, ast.Continue, ast.Break)) and not s.orelse:
+                    conds = conds + [(s.test, False, 'guard')]
+                elif s.orelse and isinstance(s.orelse[-1], (ast.Return, ast.Raise, ast.Continue, ast.Break)) \
+                        and not (s.body and isinstance(s.body[-1], (ast.Return, ast.Raise, ast.Continue, ast.Break))):
+                    conds = conds + [(s.test, True, 'guard')]
             elif isinstance(s, (ast.For, ast.AsyncFor)):
                 self._exprs(s.iter, s, conds, loops)
                 self._body(s.body, conds, loops + [(s.target, s.iter)])
@@ -131,6 +145,13 @@ class Effects:
             t = self._target(expr.func.value)
             if t:
                 self._rec(t, expr.func.attr, list(expr.args), expr, conds, loops, gens, stmt, negated)
+        if isinstance(expr, ast.Call) and isinstance(expr.func, ast.IfExp):
+            # (A.add if c else A.discard)(x): two conditional effects
+            for arm, pol in ((expr.func.body, True), (expr.func.orelse, False)):
+                if isinstance(arm, ast.Attribute):
+                    t = self._target(arm.value)
+                    if t:
+                        self._rec(t, arm.attr, list(expr.args), expr, list(conds) + [(expr.func.test, pol)], loops, gens, stmt, negated)
         if isinstance(expr, ast.Lambda):
             return
         for child in ast.iter_child_nodes(expr):
@@ -140,6 +161,27 @@ class Effects:
                 pass
             elif isinstance(child, ast.keyword):
                 self._exprs(child.value, stmt, conds, loops, gens, False)
+
+    def escapes(self):
+        """Calls that hand a tracked container (or the owning object itself) to a callable the extractor does not see
+        into: effects may happen there, so *absence* of an effect in this function proves nothing."""
+        out = []
+        for n in walk(self.func.body):
+            if not isinstance(n, ast.Call):
+                continue
+            name = '.'.join(chain(n.func) or [])
+            if name.split('.')[-1] in ('len', 'iter', 'list', 'tuple', 'set', 'frozenset', 'sorted', 'zip', 'enumerate', 'isinstance',
+                                       'Unique', 'repr', 'str', 'bool', 'any', 'all', 'sum', 'min', 'max', 'map', 'filter', 'Fraction',
+                                       '_fromargs', 'ensure_compatible', 'conflicting_pairs', 'issuperset', 'rsub', 'crc32_hex', 'dumps'):
+                continue
+            if isinstance(n.func, ast.Attribute) and self._target(n.func.value):
+                continue
+            for a in list(n.args) + [k.value for k in n.keywords]:
+                if isinstance(a, ast.Starred):
+                    a = a.value
+                if self._target(a) is not None:
+                    out.append(n)
+        return out
 
     def _rec(self, target, op, args, node, conds, loops, gens, stmt, negated=None):
         self._n += 1
